@@ -900,13 +900,9 @@ def oracle_sched(case, obs):
     return f"the run did not finish: {obs['outcome']} {obs.get('err')} blocked={obs.get('blocked')}"
   if obs['excs']:
     return f"a thread ended with an exception: {obs['excs']}"
-  if obs.get('ac_released_busy'):
-    # (round 11, F-C20-release-empty-set) ownership discipline behind "at most one pool owns a given worker": a pool does not give
-    # away a worker on which one of its own tasks is still running - as_completed's mid-run release is for the UNUSED workers
-    # (orchestrate.py:542).  Not in the letter of the statement; see known_findings (fixed) for what it does and does not violate.
-    b = obs['ac_released_busy'][0]
-    return (f"as_completed of pool {b['p']}: the mid-run release_all({b['arg']}) released workers {b['workers']} on which tasks of this "
-            f"as_completed were still running (an empty collection means 'all workers' to release_all)")
+  # (round 11) obs['ac_released_busy'] records a mid-run release_all() of as_completed that gives away workers on which its own
+  # tasks are still running (empty set read as 'all workers').  It is NOT judged: the statement of C20 allows a pool to release
+  # workers it owns at any time; see DESIGN.md (observations outside the properties).
   ths, npools, nw = case['threads'], len(case['pw']), case['nworkers']
   steps, snaps = obs['steps'], obs['snaps']
   drivers = [set() for _ in range(npools)]          # threads that act for a pool
@@ -1345,7 +1341,9 @@ def extra(ctx):
     raise InfraError(f'C20 sched family missed program points {missing_pp}')
   import os
   fams = os.environ.get('VERIF_C20_FAMILIES')
-  missing_ac = [pp for pp in AC_POINTS if pp not in _COVER.get('sched_program_points', {})]
+  # 'a.acq>workers' (nothing unused: the release is skipped) exists only in the guarded variant of as_completed (lo.AC_FIXED)
+  missing_ac = [pp for pp in AC_POINTS if pp not in _COVER.get('sched_program_points', {})
+                and (lo.AC_FIXED or pp != 'a.acq>workers')]
   ctx.notes.append(f'scheda: {len(AC_POINTS) - len(missing_ac)}/{len(AC_POINTS)} promised program points of the as_completed controller executed '
                    f'on the real code; all a.* points seen: {sorted(k for k in _COVER.get("sched_program_points", {}) if k.startswith("a."))}')
   if (missing_ac and (not fams or 'scheda' in fams.split(',')) and not _VERDICTS['n'] and not ctx.extra_disagreements
